@@ -1608,6 +1608,10 @@ class LangServer:
         present_conf_files = [
             os.path.isfile(os.path.join(self.root_path, f)) for f in default_conf_files
         ]
+        # A configuration file that was asked for by name and does not exist is
+        # reported, also when one with a default name is used instead
+        if not present_conf_files[0] and self.config not in default_conf_files[1:]:
+            self.post_message(f"Configuration file '{self.config}' not found")
         if not any(present_conf_files):
             return None
 
@@ -1616,6 +1620,7 @@ class LangServer:
             if not present:
                 continue
             config_path = os.path.join(self.root_path, f)
+            config_name = f
             break
 
         # Options are only updated if the whole file can be applied
@@ -1638,12 +1643,12 @@ class LangServer:
                 self.debug_log = config_dict.get("debug_log", self.debug_log)
 
         except FileNotFoundError:
-            self.post_message(f"Configuration file '{self.config}' not found")
+            self.post_message(f"Configuration file '{config_name}' not found")
 
         # Erroneous json file syntax, unreadable file or invalid option values
         except (ValueError, OSError) as e:
             self.__dict__.update(cli_options)
-            msg = f'Error: "{e}" while reading "{self.config}" Configuration file'
+            msg = f'Error: "{e}" while reading "{config_name}" Configuration file'
             self.post_message(msg)
 
     def _check_config_types(self, config_dict) -> None:
